@@ -135,3 +135,55 @@ Print Assumptions C13_single_dangling_output.
 Print Assumptions C13_only_last_hop_pays_recipient.
 Print Assumptions C13_hop_swaps_whole_balance.
 Print Assumptions C13_nonvacuous.
+
+From HT Require Import Proofs.RouteCycleProofs.
+Theorem C13_route_quote_revisit : forall ops w sender a0 to w' amount pairs,
+  ops <> [] ->
+  router_hops w ops (match to with Some t => t | None => sender end) = Ok w' ->
+  chain_from a0 ops ->
+  let rcv := match to with Some t => t | None => sender end in
+  rcv <> w_rtr w ->
+  length pairs = length ops ->
+  (forall i o p, nth_error ops i = Some o -> nth_error pairs i = Some p -> hop_ok w rcv o p) ->
+  NoDup pairs ->                                               (* hops use distinct pairs; assets may repeat *)
+  asset_balance w a0 (w_rtr w) = Ok amount ->                   (* the router holds the input ... *)
+  (forall x, In x (map snd ops) -> asset_eqb x a0 = false -> bal w x (w_rtr w) = 0) ->  (* ... and none of the OTHER route assets *)
+  exists q, q_router_simulate w amount ops = Ok q /\
+            bal w' (snd (last ops (a0, a0))) rcv = bal w (snd (last ops (a0, a0))) rcv + q /\
+            (forall x, In x (route_assets a0 ops) -> bal w' x (w_rtr w) = 0).
+Proof. exact route_delivers_quote_revisit. Qed.
+Print Assumptions C13_route_quote_revisit.
+
+Theorem C13_exec_route_quote_revisit : forall ops w sender a0 to w' amount pairs,
+  router_exec_ops w sender ops None to = Ok w' ->
+  chain_from a0 ops ->
+  let rcv := match to with Some t => t | None => sender end in
+  rcv <> w_rtr w -> length pairs = length ops ->
+  (forall i o p, nth_error ops i = Some o -> nth_error pairs i = Some p -> hop_ok w rcv o p) ->
+  NoDup pairs ->
+  asset_balance w a0 (w_rtr w) = Ok amount ->
+  (forall x, In x (map snd ops) -> asset_eqb x a0 = false -> bal w x (w_rtr w) = 0) ->
+  exists q, q_router_simulate_ops w amount ops = Ok q /\
+            bal w' (snd (last ops (a0, a0))) rcv = bal w (snd (last ops (a0, a0))) rcv + q /\
+            (forall x, In x (route_assets a0 ops) -> bal w' x (w_rtr w) = 0).
+Proof. exact router_exec_ops_delivers_quote_revisit. Qed.
+Print Assumptions C13_exec_route_quote_revisit.
+
+Theorem C13_route_revisit_example :
+  exists w',
+    rv_ops <> [] /\
+    router_hops rv_w rv_ops rv_rcv = Ok w' /\
+    chain_from (ANative 0) rv_ops /\
+    rv_rcv <> w_rtr rv_w /\
+    length rv_pairs = length rv_ops /\
+    (forall i o p, nth_error rv_ops i = Some o -> nth_error rv_pairs i = Some p -> hop_ok rv_w rv_rcv o p) /\
+    NoDup rv_pairs /\
+    asset_balance rv_w (ANative 0) (w_rtr rv_w) = Ok 5000 /\
+    (forall x, In x (map snd rv_ops) -> asset_eqb x (ANative 0) = false -> bal rv_w x (w_rtr rv_w) = 0) /\
+    ~ NoDup (route_assets (ANative 0) rv_ops) /\
+    snd (last rv_ops (ANative 0, ANative 0)) = ANative 0 /\
+    q_router_simulate rv_w 5000 rv_ops = Ok 2453 /\
+    bal w' (ANative 0) rv_rcv = bal rv_w (ANative 0) rv_rcv + 2453 /\
+    bal w' (ANative 0) (w_rtr rv_w) = 0 /\ bal w' (AToken 2) (w_rtr rv_w) = 0 /\ bal w' (AToken 3) (w_rtr rv_w) = 0.
+Proof. exact route_revisit_example. Qed.
+Print Assumptions C13_route_revisit_example.
